@@ -983,10 +983,12 @@ def binary(conf_mat):
         ORSS = (theta-1)/(theta+1)
 
     # Random values
-    TP_rand = Pobs*Psim/nval
-    TN_rand = Nobs*Nsim/nval
-    FP_rand = Nobs*Psim/nval
-    FN_rand = Pobs*Nsim/nval
+    # (products of counts computed in float, they overflow 64 bits
+    # integers for tables of a few billions pairs)
+    TP_rand = float(Pobs)*Psim/nval
+    TN_rand = float(Nobs)*Nsim/nval
+    FP_rand = float(Nobs)*Psim/nval
+    FN_rand = float(Pobs)*Nsim/nval
 
     # Random scores
     H_rand = TP_rand/Pobs
